@@ -101,7 +101,17 @@ void print_ws_json(FILE *f)
         for (int i = 0; i < 8; i++) fprintf(f, "%s%llu", i ? "," : "", (unsigned long long)WS.handler_calls[i / 4][i % 4]);
         int classes = 0;
         for (int i = 0; i < 128; i++) if (WS.outcome_classes[i]) classes++;
-        fprintf(f, "],\"code_classes\":%d", classes);
+        fprintf(f, "],\"code_classes\":%d,\"samples\":[", classes);
+        for (int i = 0; i < WS.nsamples; i++) {
+                fprintf(f, "%s\"", i ? "," : "");
+                for (const char *p = WS.samples[i]; *p; p++) {
+                        if (*p == '"' || *p == '\\') fprintf(f, "\\%c", *p);
+                        else if ((unsigned char)*p < 32) fputc(' ', f);
+                        else fputc(*p, f);
+                }
+                fprintf(f, "\"");
+        }
+        fprintf(f, "]");
 }
 
 int main(int argc, char **argv)
@@ -166,6 +176,7 @@ int main(int argc, char **argv)
                 else if (!strcmp(a, "--suffix-mask")) W.gen.suffix_mask = atoi(ARG());
                 else if (!strcmp(a, "--mon")) W.mon = parse_mon(ARG());
                 else if (!strcmp(a, "--line-max")) W.line_max = atoi(ARG());
+                else if (!strcmp(a, "--merge-doomed")) W.merge_doomed = atoi(ARG());
                 else if (!strcmp(a, "--wo-fill")) W.wo_fill = atoi(ARG());
                 else if (!strcmp(a, "--var-init")) W.var_init = atoi(ARG());
                 else if (!strcmp(a, "--max-states")) o.max_states = strtoull(ARG(), NULL, 10);
@@ -198,13 +209,15 @@ int main(int argc, char **argv)
         }
         struct mcx_stats st;
         int nv = mcx_explore(&world_model, &o, &st);
+        char vmsg[1024]; snprintf(vmsg, sizeof vmsg, "%s", mcx_violation_msg());
+        if (!nv) world_resolve_samples();
         printf("{\"tag\":\"%s\",\"states\":%llu,\"transitions\":%llu,\"max_depth\":%llu,\"revisits\":%llu,\"exhaustive\":%s,\"capped\":%d,\"wall_s\":%.3f,\"violations\":%d,",
                tag, (unsigned long long)st.states, (unsigned long long)st.transitions, (unsigned long long)st.max_depth, (unsigned long long)st.revisits,
                st.exhaustive ? "true" : "false", st.capped, st.wall_s, nv);
         print_ws_json(stdout);
         if (nv) {
                 printf(",\"replay\":\"%s\",\"msg\":\"", mcx_last_replay_path());
-                for (const char *p = mcx_violation_msg(); *p; p++) {
+                for (const char *p = vmsg; *p; p++) {
                         if (*p == '"' || *p == '\\') printf("\\%c", *p);
                         else if ((unsigned char)*p < 32) printf(" ");
                         else putchar(*p);
